@@ -95,6 +95,10 @@ def gen_exchange(rng, tag, key, last, quick):
     target = path + ("?" + query if query is not None else "")
     frag = "#frag" if rng.random() < 0.03 else ""
     hs = gen_headers(rng, REQ_NAMES, 0, 30 if rng.random() < 0.2 else 8, allow_obs=key is None)
+    big_head = rng.random() < 0.012
+    if big_head:
+        # a header block of 30-70 KB (well inside hyper's default buffer): compared by the predicate only, the model is not fed 50 KB
+        hs += [("x-big-%d" % j, ("%x" % rng.getrandbits(64)) * rng.choice([60, 120])) for j in range(rng.randint(25, 40))]
     for name in OWNED:
         if rng.random() < 0.12:
             hs.append((rc.rand_case(rng, name), rng.choice(['{ "isRoot": "true"}', "Thu, 01 Jan 1970 00:00:00 GMT", "value"])))
@@ -132,6 +136,8 @@ def gen_exchange(rng, tag, key, last, quick):
             rhs.append((rng.choice(["Connection", "connection", "CONNECTION"]), rng.choice(["close", "Close", "close, x-foo"])))
         elif r < 0.075 and len(rbody) > 4:
             kind = "truncated"          # the host connection fails in the middle of the body
+        elif r < 0.095:
+            kind = "noreply"            # the host reads the whole request, then drops the connection without answering
     # at most ONE Connection header per answer: hyper joins repeated Connection headers into one comma-separated value (an
     # equivalent spelling of the same list, but not byte-identical)
     seen_conn, kept = False, []
@@ -161,6 +167,8 @@ def gen_exchange(rng, tag, key, last, quick):
     if kind == "connclose":
         reply.pop("no_content_length", None)
         reply["close"] = True
+    if kind == "noreply":
+        reply = {"match": reply["match"], "close_without_reply": True}
     if kind == "truncated":
         # head + a strict prefix of the body in the chosen framing, then the host closes: never a terminator / never the full length
         chunked = rng.random() < 0.6
@@ -181,7 +189,7 @@ def gen_exchange(rng, tag, key, last, quick):
         reply["write_pause_ms"] = rng.choice([0, 1, 1, 2])
     if rng.random() < 0.2:
         reply["delay_ms"] = rng.randint(1, 4)
-    return {"tag": tag, "kind": kind, "dead": False, "method": method, "target": target + frag, "sent_target": target, "headers": hs, "body": body, "chunks": chunks,
+    return {"tag": tag, "kind": kind, "dead": False, "big_head": big_head, "method": method, "target": target + frag, "sent_target": target, "headers": hs, "body": body, "chunks": chunks,
             "status": status, "rheaders": rhs_wire, "rbody": rbody, "reply": reply, "key": key}
 
 
@@ -332,7 +340,10 @@ def run(ctx):
                 # after the host said `connection: close` (relayed to the client) or died mid-body, the client connection is over:
                 # the remaining pipelined requests must be neither answered nor relayed
                 x["dead"] = ended
-                ended = ended or x["kind"] in ("connclose", "truncated") or bool(x["reply"].get("close"))
+                if not ended and (x["kind"] in ("connclose", "truncated", "noreply") or x["reply"].get("close")):
+                    # "told": the client learns that the connection is over (connection: close relayed / transfer aborted);
+                    # "silent": the host just went away, so a later request legitimately gets the proxy's own 502/503
+                    ended = "told" if x["kind"] in ("connclose", "truncated") else "silent"
             pipelined = k > 1 and rng.random() < 0.6
             if any(x["kind"] != "normal" or x["reply"].get("close") for x in xs[:-1]):
                 # a connection that the host ends before the client's last request is driven request by request: with the later
@@ -370,9 +381,11 @@ def run(ctx):
         ctx.log("search after the broken proof obligation: %d runs of the F12 witness, %d failing" % (len(stress), len(failures)))
     req_exprs, req_meta, resp_exprs, resp_meta = [], [], [], []
     n_pipelined = n_conn = 0
-    n_f12, n_dead, n_trunc = [0], [0], [0]
+    n_f12, n_dead, n_trunc, n_noreply = [0], [0], [0], [0]
 
     def add_request_model(case, x, up):
+        if x["big_head"]:
+            return
         uh = rc.hdr_list(up)
         dates = rc.values(uh, DATE)
         path, q = rc.split_target(x["target"])
@@ -416,7 +429,8 @@ def run(ctx):
                     # sent after the host ended the connection (and the client was told / the transfer was aborted): the proxy
                     # must not make up an answer for it
                     n_dead[0] += 1
-                    if i < len(responses) and responses[i].get("complete") and b"x-reply-tag" not in responses[i]["raw"].lower():
+                    if x["dead"] == "told" and i < len(responses) and responses[i].get("complete") and \
+                            b"x-reply-tag" not in responses[i]["raw"].lower():
                         failures.append({"case": case, "impl": rc.short(responses[i]["raw"][:200]),
                                          "why": "response leg: the host ended the connection with an earlier response on this keep-alive "
                                                 "connection, yet request %s was answered %s by the proxy itself -- the client was not "
@@ -430,6 +444,17 @@ def run(ctx):
                 why = prop_request(x, up)
                 if why:
                     failures.append({"case": case, "why": "request leg: " + why, "impl": rc.short(up["start_line"])})
+                if x["kind"] == "noreply":
+                    # the host took the request and died without a word: it must have seen the request exactly ONCE (checked above:
+                    # a proxy that silently re-sends a request the host already read duplicates non-idempotent operations), and
+                    # the client gets the proxy's own 5xx -- there is no host answer to relay
+                    n_noreply[0] += 1
+                    if i < len(responses) and responses[i].get("complete") and not (500 <= (responses[i].get("status") or 0) <= 599):
+                        failures.append({"case": case, "impl": rc.short(responses[i]["raw"][:200]),
+                                         "why": "response leg: the host dropped the connection without answering request %s, yet the "
+                                                "client received status %s" % (x["tag"], responses[i].get("status"))})
+                    add_request_model(case, x, up)
+                    continue
                 if x["kind"] == "truncated":
                     # the host died mid-body: the client may see an aborted transfer, never a well-terminated shorter body
                     n_trunc[0] += 1
@@ -526,7 +551,9 @@ def run(ctx):
                                "replies_with_hop_by_hop_headers": sum(1 for x in allx if any(k.lower() in (
                                    "connection", "keep-alive", "upgrade", "proxy-connection", "te", "trailer") for k, _ in x["rheaders"])),
                                "replies_announcing_connection_close": sum(1 for x in allx if x["kind"] == "connclose"),
-                               "replies_truncated_mid_body": n_trunc[0], "requests_after_the_host_ended_the_connection": n_dead[0]},
+                               "replies_truncated_mid_body": n_trunc[0], "requests_the_host_dropped_without_answer": n_noreply[0],
+                               "requests_with_30_70KB_header_block": sum(1 for x in allx if x["big_head"]),
+                               "bodyless_methods_carrying_a_body": sum(1 for x in allx if x["body"] and x["method"] in ("GET", "HEAD", "OPTIONS", "TRACE", "get")), "requests_after_the_host_ended_the_connection": n_dead[0]},
     })
     ctx.assumptions += [
         "hyper's HTTP/1.1 parsing and framing on both legs are outside the model; the comparison is modulo Content-Length / "
